@@ -16,6 +16,12 @@ open WaitN
 #print axioms C11_mutex
 #print axioms C11_mutex_marks
 #print axioms C11_heap_path
+#print axioms C11_no_oversleep
+#print axioms C11_cleared_accounted
+#print axioms C11_no_oversleep_token
+#print axioms C11_sleep_deadline
+#print axioms sleep_deadline_state
+#print axioms C11_cv_unlinked_by_waker
 #print axioms C13_record_lifetime
 #print axioms C13_owner_access
 #print axioms C13_record_lifetime_post
@@ -30,3 +36,8 @@ open WaitN
 #print axioms dui_of_reachable
 #print axioms touch_stepThr
 #print axioms dies_facts
+#print axioms inv_of_run
+#print axioms sema_stepThr
+#print axioms clr_stepThr
+#print axioms bind_stepThr
+#print axioms ti_move
